@@ -1,6 +1,8 @@
 package vc
 
 import (
+	"go/ast"
+	"regexp"
 	"fmt"
 	"go/types"
 	"strings"
@@ -246,7 +248,39 @@ func genC18Resolve(e *Engine, pkg *ssa.Package, lists []string, size int64) ([]F
 	gi.Modifies = []string{"nothing"}
 	gi.Arith = "bv"
 	reg(gi)
-	// resolveInheritance
+	// resolveInheritance. The names used below are those of the pinned source; the
+	// clauses are rewritten to the names the working tree uses: parameters by
+	// position, the accumulator as "the first argument of the mergeConfig calls".
+	acc, recvN, rawN := "result", "l", "raw"
+	if fn := ResolveFunc(pkg, "(*Loader).resolveInheritance"); fn != nil {
+		if len(fn.Params) == 2 {
+			recvN, rawN = fn.Params[0].Name(), fn.Params[1].Name()
+		}
+		if syn, ok := fn.Syntax().(*ast.FuncDecl); ok && syn.Body != nil {
+			found := false
+			ast.Inspect(syn.Body, func(n ast.Node) bool {
+				call, ok := n.(*ast.CallExpr)
+				if !ok || found {
+					return !found
+				}
+				if sel, ok := call.Fun.(*ast.SelectorExpr); ok && sel.Sel.Name == "mergeConfig" && len(call.Args) == 2 {
+					if id, ok := call.Args[0].(*ast.Ident); ok {
+						acc, found = id.Name, true
+					}
+				}
+				return true
+			})
+		}
+	}
+	reAcc, reRecv, reRaw := regexp.MustCompile(`\bresult\b`), regexp.MustCompile(`\bl\b`), regexp.MustCompile(`\braw\b`)
+	add0 := add
+	add = func(fc *FuncContract, kind, label, src string, loop int) {
+		if fc.Key == "(*Loader).resolveInheritance" {
+			src = reRaw.ReplaceAllString(reRecv.ReplaceAllString(reAcc.ReplaceAllString(src, "ACC__"), recvN), rawN)
+			src = strings.ReplaceAll(src, "ACC__", acc)
+		}
+		add0(fc, kind, label, src, loop)
+	}
 	ri := mk("(*Loader).resolveInheritance", false)
 	add(ri, "requires", "args", "l != nil && raw != nil", 0)
 	add(ri, "requires", "raw-lists", cfgok("raw.Config", "valid")+" && "+listok("raw.Inherits", "valid"), 0)
